@@ -677,7 +677,7 @@ func run(c *lib.Ctx) {
 		"proxied transactions (a blacklisted account inside a proxy-exec payload) belong to C31",
 		"expiry classes are generated away from the wall clock: time expiries are >= 3e9 s",
 		"types.SetBlockedAccountsForTest installs the blacklist once per child process before any pool exists")
-	n := c.N(44, 1600)
+	n := c.N(80, 1600)
 	per := 4
 	if !c.Quick() {
 		per = 25
